@@ -30,6 +30,9 @@ const (
 	// ShapeLateStart (also outside the generally drawn shapes): the first one to three bars have no
 	// quote yet (all zero), then a random walk. Drawn by C04, C05 and C13.
 	ShapeLateStart = NumShapes + 1
+	// ShapeNaNBar (outside the generally drawn shapes): a random walk with one bar whose prices are
+	// not-a-number (a quote that failed to parse upstream). Drawn by C04.
+	ShapeNaNBar = NumShapes + 2
 )
 
 var shapeNames = []string{"walk", "flat", "up", "down", "saw", "ties", "tiny", "huge", "spiky", "halts", "steps", "micro", "glitch"}
@@ -49,7 +52,7 @@ func genSnapshots(n int, shape int, seed int64, start time.Time) []*asset.Snapsh
 	}
 	for i := 0; i < n; i++ {
 		switch shape {
-		case ShapeWalk, ShapeTiny, ShapeHuge, ShapeHalts, ShapeGlitch, ShapeSteps, ShapeLateStart:
+		case ShapeWalk, ShapeTiny, ShapeHuge, ShapeHalts, ShapeGlitch, ShapeSteps, ShapeLateStart, ShapeNaNBar:
 			price *= 1 + 0.04*(rng.Float64()-0.5)
 		case ShapeFlat:
 		case ShapeMicro:
@@ -112,6 +115,9 @@ func genSnapshots(n int, shape int, seed int64, start time.Time) []*asset.Snapsh
 		}
 		if shape == ShapeLateStart && i <= int(seed%3) {
 			c, o, h, l, vol = 0, 0, 0, 0, 0
+		}
+		if shape == ShapeNaNBar && n > 0 && i == int(seed%int64(n)) {
+			c, o, h, l = math.NaN(), math.NaN(), math.NaN(), math.NaN()
 		}
 		out[i] = &asset.Snapshot{
 			Date:   start.AddDate(0, 0, i),
